@@ -6,6 +6,7 @@ MODULES = [
     "contracts.obs_derived",
     "contracts.obs_ops",
     "contracts.obs_gamma",
+    "contracts.obs_jack",
     "contracts.corr",
     "contracts.readers",
     "contracts.dirac",
